@@ -426,7 +426,7 @@ class Plain:
 
 
 def fin_params(tier):
-    return [P("how", 0, 3), P("owner", 0, 1), P("clone", 0, 1), P("nafter", 1, 3)]
+    return [P("how", 0, 3), P("owner", 0, 1), P("clone", 0, 1), P("nafter", 1, 3), P("filt", 0, 1)]
 
 
 @guard
@@ -436,6 +436,23 @@ def fin_fn(a, tier):
     from symkit.choose import is_concrete, resumed
 
     how, owner_kind, clone = pick(a["how"], 4), pick(a["owner"], 2), pick(a["clone"], 2)
+    filt = pick(a["filt"], 2)
+
+    class WatchList:
+        """A filter that is a callable OBJECT and, being an empty container when the stream is opened, falsy."""
+
+        def __init__(self):
+            self.rejected = set()
+
+        def __len__(self):
+            return len(self.rejected)
+
+        def __call__(self, e):
+            if e.n == 11:
+                self.rejected.add(e.n)
+                return False
+            return True
+
     na = a["nafter"]
     if not is_concrete(na):
         with resumed():
@@ -481,7 +498,7 @@ def fin_fn(a, tier):
                     await release_a.wait()  # ... and stays inside the block
 
             async def sub(tag, signal, *, task_status):
-                async with signal.stream_events() as stream:
+                async with signal.stream_events(WatchList() if (filt and tag == "B") else None) as stream:
                     task_status.started()
                     async for ev in stream:
                         got[tag].append(ev)
@@ -519,12 +536,16 @@ def fin_fn(a, tier):
 
     _, exc, _k = run(main)
     summary = {"first_subscriber_finished_by": FINISH[how], "owner": ["plain class", "falsy value object"][owner_kind], "events_after_it_finished": nafter,
-               "subscriber_on_a_shallow_copy_of_the_owner": bool(clone)}
+               "subscriber_on_a_shallow_copy_of_the_owner": bool(clone),
+               "second_subscribers_filter": "a falsy callable object rejecting event 11" if filt else None}
     if exc is not None:
         return FAIL(f"finished:raised:{type(exc).__name__}", repr(exc), summary)
     if problems:
         return FAIL("finished:" + problems[0][0], problems[0][1], summary)
-    if len(got["B"]) != len(sent["src"]) or any(x is not y for x, y in zip(got["B"], sent["src"])):
+    exp_b = [e for e in sent["src"] if not (filt and e.n == 11)]
+    if filt and (len(got["B"]) != len(exp_b) or any(x is not y for x, y in zip(got["B"], exp_b))):
+        return FAIL("finished:stream-did-not-yield-exactly-the-events-passing-its-filter:falsy-callable-filter", f"B got {[e.n for e in got['B']]} expected {[e.n for e in exp_b]}", summary)
+    if not filt and (len(got["B"]) != len(sent["src"]) or any(x is not y for x, y in zip(got["B"], sent["src"]))):
         return FAIL(f"finished:another-subscriber-of-the-signal-lost-events:finished-by={how}", f"B got {[e.n for e in got['B']]} of {[e.n for e in sent['src']]}", summary)
     if [e.n for e in got["A"]] != [1]:
         return FAIL("finished:first-subscriber", f"{[e.n for e in got['A']]}", summary)
@@ -544,7 +565,7 @@ FIN = Harness(
     cube=lambda tier: 0,
     title="a subscriber that finished its iterator but is still inside the block; a stream on a shallow copy of the owner",
     bound_text=lambda tier: "first subscriber of src.a finishes by {" + "; ".join(FINISH) + "} and stays inside its block while 1-3 more events are dispatched; a second subscriber of "
-    "src.a subscribed later; optionally a subscriber of copy.copy(src).a (copy taken after src.a was first used) with dispatches on both instances; owner plain / falsy value object",
+    "src.a subscribed later, unfiltered or filtered by a callable object that is falsy when the stream is opened; optionally a subscriber of copy.copy(src).a (copy taken after src.a was first used) with dispatches on both instances; owner plain / falsy value object",
     oracle="dispatch never raises; the second subscriber yields every src.a event; the copy's stream yields exactly the copy's events; sources are the dispatching instances",
     outside="what the finished subscriber's queue holds (judged by E-history / E-queue)",
     stubs=STUBS_COMMON,
